@@ -199,6 +199,20 @@ var c01Tampers = []c01Tamper{
 		e.ID = vk.CanonID(e)
 		return true
 	}},
+	{"hex-field-malformed", func(r *rand.Rand, e *mocrelay.Event, _ []vk.Key) bool {
+		// id, pubkey or sig that is no hex string at all: a letter outside a-f, or an odd
+		// number of digits (one dropped)
+		f := []*string{&e.ID, &e.Pubkey, &e.Sig}[r.IntN(3)]
+		if r.IntN(2) == 0 {
+			b := []byte(*f)
+			b[r.IntN(len(b))] = "ghzGZ -"[r.IntN(7)]
+			*f = string(b)
+		} else {
+			i := r.IntN(len(*f))
+			*f = (*f)[:i] + (*f)[i+1:]
+		}
+		return true
+	}},
 	{"id-nibble", func(r *rand.Rand, e *mocrelay.Event, _ []vk.Key) bool {
 		e.ID = bumpNibble(e.ID, r.IntN(64))
 		return true
@@ -260,7 +274,7 @@ func c01WrongForms(e *mocrelay.Event) map[string][]byte {
 
 func TestVerif_C01(t *testing.T) {
 	rep := vk.NewReport(t, "C01", "exploration")
-	rep.Rule = "freshly signed events (32 fixed + seeded keys, every kind class, boundary created_at, 0-8 tags of 0-5 elements, hostile content and tag values, a complete sweep of U+0000..U+FFFF minus surrogates and 4096 astral samples), 1300/4200 distinct authors in one process (re-checked afterwards, with cross-signed forgeries), each event with sampled tamperings from a 26-entry catalogue, ids/signatures with a 00 byte at either end cut off or padded and wrong-canonicalisation forgeries; oracle = reference canonical form + SHA-256 + independent BIP-340 verifier; non-trivial = the event contains a character some JSON encoder escapes or any non-ASCII character, or is a tampering/forgery; distinct = distinct (event id, tamper class)"
+	rep.Rule = "freshly signed events (32 fixed + seeded keys, every kind class, boundary created_at, 0-8 tags of 0-5 elements, hostile content and tag values, a complete sweep of U+0000..U+FFFF minus surrogates and 4096 astral samples), 1300/4200 distinct authors in one process (re-checked afterwards, with cross-signed forgeries), each event with sampled tamperings from a 27-entry catalogue, ids/signatures with a 00 byte at either end cut off or padded and wrong-canonicalisation forgeries; oracle = reference canonical form + SHA-256 + independent BIP-340 verifier; non-trivial = the event contains a character some JSON encoder escapes or any non-ASCII character, or is a tampering/forgery; distinct = distinct (event id, tamper class)"
 	rep.Assume("the independent BIP-340 verifier passed the official test vectors at start-up")
 	defer rep.Finish()
 
@@ -350,6 +364,11 @@ func TestVerif_C01(t *testing.T) {
 				rep.Violation("verify/tamper/"+tm.name, fmt.Sprintf("altered event (%s): reported authentic=%v, reference=%v", tm.name, got, want),
 					map[string]any{"original": e, "altered": c})
 			}
+		}
+		// whatever was looked at in between, the genuine event is still authentic (no verdict
+		// depends on what was checked before)
+		if done > 0 && !c01Reported(e) {
+			rep.Violation("verify/rejects-authentic/after-altered-copies", "a correctly signed event, authentic a moment ago, is reported not authentic after altered copies of it were checked", map[string]any{"event": e})
 		}
 		// forgeries over wrong canonical forms
 		canon := vk.CanonEvent(e)
